@@ -36,7 +36,7 @@ pub enum Expr {
 pub const BINOPS: [(u8, &str); 15] = [(0x03, "+"), (0x04, "-"), (0x05, "*"), (0x06, "/"), (0x07, "^"), (0x08, "&"), (0x09, "<"), (0x0A, "<="), (0x0B, "="), (0x0C, ">"), (0x0D, ">="), (0x0E, "<>"), (0x0F, " "), (0x10, ","), (0x11, ":")];
 
 pub fn err_text(e: u8) -> &'static str {
-    match e { 0x00 => "#NULL!", 0x07 => "#DIV/0!", 0x0F => "#VALUE!", 0x17 => "#REF!", 0x1D => "#NAME?", 0x24 => "#NUM!", _ => "#N/A" }
+    match e { 0x00 => "#NULL!", 0x07 => "#DIV/0!", 0x0F => "#VALUE!", 0x17 => "#REF!", 0x1D => "#NAME?", 0x24 => "#NUM!", 0x2B => "#GETTING_DATA", _ => "#N/A" }
 }
 
 fn ref_text(r: &CellRef) -> String {
